@@ -54,4 +54,14 @@ PROPS = {
         "assumptions": ["little-endian target"],
         "theorems": ["PMH.C18.sigU16_inj", "PMH.C18.sigU32_inj", "PMH.C18.sigU64_inj", "PMH.C18.sigVecU16_inj", "PMH.C18.sigVecU32_inj", "PMH.C18.sigString_inj"],
     },
+    "C14": {
+        "module": "PMH.Props.C14",
+        "level_text": "full for the six counting entry points (count = #equal positions, symmetric, identical => len/len, count <= len, mismatch => error never a prefix; quotient in [0,1]); partial for the MLE: argmin's golden-section search and get_mle are transcribed and agree BIT-FOR-BIT with the real code (values and panics) on real SetSketches; in exact arithmetic with a non-NaN likelihood get_mle neither aborts nor returns None and its value lies in [0,b_sup] within [0,1] (gss_contained, start_in_bracket, getMle_total). Not mechanised: that the IEEE likelihood is never NaN at every evaluated point.",
+        "level_note": "trusted: Lean kernel, Mathlib field/order lemmas, model + correspondence; exact arithmetic replaces IEEE in the MLE theorems; argmin's executor/observer glue around the transcribed solver; rayon pool pinned to 1 thread in the harness so the cardinal estimates are reproducible",
+        "rule": "counting: random vectors (len 1..300, value pool 1..4 so that equal positions are frequent, 1 in 5 with unequal lengths, 1 in 7 identical) through all six entry points and the two sketcher methods, result bits vs model; MLE: real SetSketcher<u16> pairs for b in {1.001,1.2,1.5,2} x m in {64,256(,1024,4096)} x {identical, disjoint, nested 1:2/1:10/1:100(/1:1000), overlaps, singletons}, returned bits vs transcribed solver, plus the range oracle; non-trivial = len>1 or any MLE case",
+        "trusted_base": TB_COMMON + ["argmin 0.10 Executor glue (observer, KV) not modelled; solver init/next_iter/terminate and IterState::update transcribed and validated bit-for-bit"],
+        "not_mechanised": ["IEEE: the likelihood is not NaN at every evaluated point (then best_param could be None)", "f32/f64 rounding of count/len (one correctly rounded division)"],
+        "assumptions": ["MLE theorems: exact arithmetic, positive finite cardinal estimates"],
+        "theorems": ["PMH.C14.countEq_comm", "PMH.C14.countEq_self", "PMH.C14.countEq_mismatch", "PMH.C14.countEq_ok", "PMH.C14.gss_contained", "PMH.C14.start_in_bracket", "PMH.C14.getMle_total"],
+    },
 }
